@@ -48,5 +48,5 @@ Grid == {<<Op(m)>> \o [i \in 1..k |-> K33] \o <<Op(n), Op("CHECKMULTISIG")>> :
 GridNear == {x \in Grid : LET n == NumOf[x[Len(x) - 1].name] IN Len(x) - 3 \in {n - 1, n, n + 1}}
 
 UniverseQ == WithTrunc(SeqsOver(SmallAlphabet, L)) \cup SeqsOver(Alphabet, 2) \cup Neighbourhood \cup Witness \cup Multisigs \cup GridNear
-UniverseT == WithTrunc(SeqsOver(Alphabet, L)) \cup Neighbourhood \cup Witness \cup Multisigs \cup GridNear
+UniverseT == WithTrunc(SeqsOver(Alphabet, L)) \cup SeqsOver(SmallAlphabet, 4) \cup Neighbourhood \cup Witness \cup Multisigs \cup GridNear
 =============================================================================
